@@ -299,3 +299,141 @@ Section Arrays.
       rewrite Ea, Eb. rewrite !aget_aadd by (rewrite ?aadd_length; lia). rewrite (HA i Hi). unfold pt. eqbs.
   Qed.
 End Arrays.
+
+(** * the two searches *)
+Section Search.
+  Variables (K : table) (r : vec) (t n : nat) (m : Z).
+  Hypothesis HD : DenseTo n r m.
+  Hypothesis Ht : (t < n)%nat.
+  Hypothesis Hm : m < Z.of_nat n.
+
+  Notation b0 := (b0 r t).
+  Notation CF := (CF K r t n).
+  Notation AF := (AF K r t n).
+  (** variation of the score when the target joins bucket [k] / sits alone in a new bucket before position [k] *)
+  Definition DJ (k : Z) : Z := delta_join (bef K t) (aft K t) (tie K t) (get r) (others t n) b0 k.
+  Definition DN (k : Z) : Z := delta_new (bef K t) (aft K t) (tie K t) (get r) (others t n) b0 k.
+
+  Lemma others_nonneg : forall e, In e (others t n) -> 0 <= get r e.
+  Proof.
+    intros e He. unfold others in He. apply filter_In in He as [He _]. apply in_seq in He.
+    destruct HD as (_ & Rg & _). specialize (Rg e ltac:(lia)). lia.
+  Qed.
+  Lemma b0_range : 0 <= b0 <= m.
+  Proof. destruct HD as (_ & Rg & _). exact (Rg t Ht). Qed.
+
+  Lemma CF_right (j : Z) : b0 < j -> rsum (b0 + 1) (Z.to_nat (j - b0)) CF = DJ j.
+  Proof.
+    intros Hj. replace (Z.to_nat (j - b0)) with (S (Z.to_nat (j - b0 - 1))) by lia.
+    unfold CF, DJ. rewrite (change_prefix_right _ _ _ _ _ _ others_nonneg (proj1 b0_range)). f_equal. lia.
+  Qed.
+  Lemma CF_left (j : Z) : 0 <= j < b0 -> rsum j (Z.to_nat (b0 - j)) CF = DJ j.
+  Proof.
+    intros Hj. replace (Z.to_nat (b0 - j)) with (S (Z.to_nat (b0 - 1 - j))) by lia.
+    replace j with (b0 - 1 - Z.of_nat (Z.to_nat (b0 - 1 - j))) at 1 3 by lia.
+    unfold CF, DJ. apply (change_prefix_left _ _ _ _ _ _ others_nonneg (proj1 b0_range)). lia.
+  Qed.
+  Lemma AF_right (j : Z) : b0 < j -> rsum (b0 + 1) (Z.to_nat (j - b0)) AF = DN j.
+  Proof.
+    intros Hj. replace (Z.to_nat (j - b0)) with (S (Z.to_nat (j - b0 - 1))) by lia.
+    unfold AF, DN. rewrite (add_prefix_right _ _ _ _ _ _ others_nonneg). f_equal. lia.
+  Qed.
+  Lemma AF_left (j : Z) : 0 <= j <= b0 -> rsum j (Z.to_nat (b0 - j + 1)) AF = DN j.
+  Proof.
+    intros Hj. replace (Z.to_nat (b0 - j + 1)) with (S (Z.to_nat (b0 - j))) by lia.
+    replace j with (b0 - Z.of_nat (Z.to_nat (b0 - j))) at 1 3 by lia.
+    unfold AF, DN. apply (add_prefix_left _ _ _ _ _ _ others_nonneg). lia.
+  Qed.
+
+  Lemma THR_pos : 0 < THR.
+  Proof. reflexivity. Qed.
+
+  Theorem search_to_change_spec C :
+    length C = (n + 2)%nat -> (forall i, 0 <= i -> aget C i = CF i) ->
+    let '(to, C') := search_to_change_bucket b0 C m in
+    (to = -1 /\ forall k, 0 <= k <= m -> k <> b0 -> - THR <= DJ k) \/
+    (0 <= to <= m /\ to <> b0 /\ aget C' to = DJ to /\ DJ to < - THR).
+  Proof.
+    intros LC HC. pose proof b0_range as Rb. pose proof THR_pos as Tp. unfold search_to_change_bucket.
+    replace (b0 + 1 - 1) with b0 by lia. rewrite (HC b0) by lia.
+    assert (Z0 : CF b0 = 0) by (unfold CF; apply (change_at_b0 _ _ _ _ _ _ others_nonneg)).
+    rewrite Z0. destruct (Z.ltb_spec 0 (- THR)) as [Bad|_]; [lia|].
+    pose proof (scan_right_spec (length C) C (b0 + 1) m ltac:(lia) ltac:(lia) ltac:(lia)) as SR.
+    destruct (scan_right (length C) C (b0 + 1) m) as [res C1]. destruct SR as (L1 & Out1 & Res1).
+    assert (PreR : forall j, b0 + 1 <= j -> aget C (b0 + 1 - 1) + rsum (b0 + 1) (Z.to_nat (j - (b0 + 1) + 1)) (aget C) = DJ j).
+    { intros j Hj. replace (b0 + 1 - 1) with b0 by lia. rewrite (HC b0), Z0 by lia.
+      replace (j - (b0 + 1) + 1) with (j - b0) by lia. rewrite <- CF_right by lia. rewrite Z.add_0_l.
+      apply rsum_ext_range. intros u Hu. apply HC. lia. }
+    destruct Res1 as [[-> AllR]|(Rg & Ev & Lt)].
+    2:{ destruct (Z.eqb_spec res (-1)) as [E|_]; [lia|]. cbn [negb]. right. rewrite PreR in Ev by lia. rewrite Ev. repeat split; lia. }
+    rewrite Z.eqb_refl. cbn [negb].
+    assert (HC1 : forall j, 0 <= j <= b0 -> aget C1 j = CF j) by (intros j Hj; rewrite Out1 by lia; apply HC; lia).
+    replace (b0 - 2 + 1) with (b0 - 1) by lia.
+    assert (RightOk : forall k, b0 < k <= m -> - THR <= DJ k) by (intros k Hk; rewrite <- PreR by lia; apply AllR; lia).
+    destruct (Z.leb_spec (-1) (b0 - 2)) as [Ge1|Lt1]; cbn [andb].
+    - (* b0 >= 1 *)
+      rewrite (HC1 (b0 - 1)) by lia.
+      assert (E1 : CF (b0 - 1) = DJ (b0 - 1)).
+      { rewrite <- (CF_left (b0 - 1)) by lia. replace (b0 - (b0 - 1)) with 1 by lia. change (Z.to_nat 1) with 1%nat. cbn [rsum]. lia. }
+      destruct (Z.ltb_spec (CF (b0 - 1)) (- THR)) as [Lt|Ge].
+      + right. rewrite (HC1 (b0 - 1)) by lia. rewrite <- E1. repeat split; lia.
+      + pose proof (scan_left_spec (length C1) C1 (b0 - 2) ltac:(lia) ltac:(lia)) as SL.
+        destruct (scan_left (length C1) C1 (b0 - 2)) as [res2 C2]. destruct SL as (L2 & Out2 & Res2).
+        assert (PreL : forall j, 0 <= j <= b0 - 2 -> rsum j (Z.to_nat (b0 - 2 - j + 1)) (aget C1) + aget C1 (b0 - 2 + 1) = DJ j).
+        { intros j Hj. replace (b0 - 2 + 1) with (b0 - 1) by lia. rewrite (HC1 (b0 - 1)) by lia.
+          rewrite <- (CF_left j) by lia. replace (Z.to_nat (b0 - j)) with (S (Z.to_nat (b0 - 2 - j + 1))) by lia.
+          rewrite rsum_snoc. replace (j + Z.of_nat (Z.to_nat (b0 - 2 - j + 1))) with (b0 - 1) by lia. f_equal.
+          apply rsum_ext_range. intros u Hu. apply HC1. lia. }
+        destruct Res2 as [[-> AllL]|(Rg2 & Ev2 & Lt2)].
+        * left. split; [reflexivity|]. intros k Hk Nk. destruct (Z.lt_trichotomy k b0) as [Lk|[Ek|Gk]]; [|lia|apply RightOk; lia].
+          destruct (Z.eq_dec k (b0 - 1)) as [->|Nk1]; [lia|]. rewrite <- PreL by lia. apply AllL. lia.
+        * right. rewrite PreL in Ev2 by lia. rewrite Ev2. repeat split; lia.
+    - (* b0 = 0 *)
+      assert (b0 = 0) by lia.
+      pose proof (scan_left_spec (length C1) C1 (b0 - 2) ltac:(lia) ltac:(lia)) as SL.
+      destruct (scan_left (length C1) C1 (b0 - 2)) as [res2 C2]. destruct SL as (_ & _ & Res2).
+      destruct Res2 as [[-> _]|(Rg2 & _)]; [|lia].
+      left. split; [reflexivity|]. intros k Hk Nk. apply RightOk. lia.
+  Qed.
+  Theorem search_to_add_spec A :
+    length A = (n + 3)%nat -> (forall i, 0 <= i -> aget A i = AF i) ->
+    let '(to, A') := search_to_add_bucket b0 A m in
+    (to = -1 /\ forall k, 0 <= k <= m + 1 -> - THR <= DN k) \/
+    (0 <= to <= m + 1 /\ aget A' to = DN to /\ DN to < - THR).
+  Proof.
+    intros LA HA. pose proof b0_range as Rb. pose proof THR_pos as Tp. unfold search_to_add_bucket.
+    replace (b0 + 2 - 1) with (b0 + 1) by lia. rewrite (HA (b0 + 1)) by lia.
+    assert (E1 : AF (b0 + 1) = DN (b0 + 1)).
+    { rewrite <- (AF_right (b0 + 1)) by lia. replace (b0 + 1 - b0) with 1 by lia. change (Z.to_nat 1) with 1%nat. cbn [rsum]. lia. }
+    destruct (Z.ltb_spec (AF (b0 + 1)) (- THR)) as [Lt|Ge].
+    { right. rewrite (HA (b0 + 1)) by lia. rewrite <- E1. repeat split; lia. }
+    pose proof (scan_right_spec (length A) A (b0 + 2) (m + 1) ltac:(lia) ltac:(lia) ltac:(lia)) as SR.
+    destruct (scan_right (length A) A (b0 + 2) (m + 1)) as [res A1]. destruct SR as (L1 & Out1 & Res1).
+    assert (PreR : forall j, b0 + 2 <= j -> aget A (b0 + 2 - 1) + rsum (b0 + 2) (Z.to_nat (j - (b0 + 2) + 1)) (aget A) = DN j).
+    { intros j Hj. replace (b0 + 2 - 1) with (b0 + 1) by lia. rewrite (HA (b0 + 1)) by lia.
+      rewrite <- (AF_right j) by lia. replace (Z.to_nat (j - b0)) with (S (Z.to_nat (j - (b0 + 2) + 1))) by lia. cbn [rsum].
+      replace (b0 + 1 + 1) with (b0 + 2) by lia. f_equal. apply rsum_ext_range. intros u Hu. apply HA. lia. }
+    destruct Res1 as [[-> AllR]|(Rg & Ev & Lt)].
+    2:{ destruct (Z.eqb_spec res (-1)) as [E|_]; [lia|]. cbn [negb]. right. rewrite PreR in Ev by lia. rewrite Ev. repeat split; lia. }
+    rewrite Z.eqb_refl. cbn [negb].
+    assert (HA1 : forall j, 0 <= j <= b0 + 1 -> aget A1 j = AF j) by (intros j Hj; rewrite Out1 by lia; apply HA; lia).
+    assert (RightOk : forall k, b0 < k <= m + 1 -> - THR <= DN k).
+    { intros k Hk. destruct (Z.eq_dec k (b0 + 1)) as [->|Nk]; [lia|]. rewrite <- PreR by lia. apply AllR. lia. }
+    replace (b0 - 1 + 1) with b0 by lia. rewrite (HA1 b0) by lia.
+    assert (E0 : AF b0 = DN b0).
+    { rewrite <- (AF_left b0) by lia. replace (b0 - b0 + 1) with 1 by lia. change (Z.to_nat 1) with 1%nat. cbn [rsum]. lia. }
+    destruct (Z.ltb_spec (AF b0) (- THR)) as [Lt|Ge0].
+    { right. rewrite (HA1 b0) by lia. rewrite <- E0. repeat split; lia. }
+    pose proof (scan_left_spec (length A1) A1 (b0 - 1) ltac:(lia) ltac:(lia)) as SL.
+    destruct (scan_left (length A1) A1 (b0 - 1)) as [res2 A2]. destruct SL as (L2 & Out2 & Res2).
+    assert (PreL : forall j, 0 <= j <= b0 - 1 -> rsum j (Z.to_nat (b0 - 1 - j + 1)) (aget A1) + aget A1 (b0 - 1 + 1) = DN j).
+    { intros j Hj. replace (b0 - 1 + 1) with b0 by lia. rewrite (HA1 b0) by lia.
+      rewrite <- (AF_left j) by lia. replace (Z.to_nat (b0 - j + 1)) with (S (Z.to_nat (b0 - 1 - j + 1))) by lia.
+      rewrite rsum_snoc. replace (j + Z.of_nat (Z.to_nat (b0 - 1 - j + 1))) with b0 by lia. f_equal.
+      apply rsum_ext_range. intros u Hu. apply HA1. lia. }
+    destruct Res2 as [[-> AllL]|(Rg2 & Ev2 & Lt2)].
+    - left. split; [reflexivity|]. intros k Hk. destruct (Z.lt_trichotomy k b0) as [Lk|[->|Gk]]; [|lia|apply RightOk; lia].
+      rewrite <- PreL by lia. apply AllL. lia.
+    - right. rewrite PreL in Ev2 by lia. rewrite Ev2. repeat split; lia.
+  Qed.
+End Search.
